@@ -85,7 +85,9 @@ class Tensor(SArr):
 
     def __array_ufunc__(self, ufunc, method, *inputs, **kw):
         r = SArr.__array_ufunc__(self, ufunc, method, *inputs, **kw)
-        return T(r) if isinstance(r, real_np.ndarray) else T(r) if isinstance(r, (SV, SC, SDyad)) else r
+        if r is None or r is NotImplemented or isinstance(r, tuple):
+            return r
+        return T(r)
 
     def __getitem__(self, idx):
         idx = _idx(idx)
@@ -109,7 +111,7 @@ class Tensor(SArr):
         return v
 
     def __bool__(self):
-        if self.size != 1:
+        if real_np.asarray(self).size != 1:
             raise RuntimeError('Boolean value of Tensor with more than one value is ambiguous')
         return bool(to_bool(self.item_()))
 
@@ -150,9 +152,6 @@ class Tensor(SArr):
     # ---- shape
     def dim(self):
         return self.ndim
-
-    def size(self, d=None):
-        return self.shape if d is None else self.shape[d]
 
     def numel(self):
         return int(real_np.prod(self.shape))
@@ -202,7 +201,10 @@ class Tensor(SArr):
         return self
 
     def numpy(self):
-        return real_np.asarray(self)
+        a = real_np.asarray(self)
+        if a.dtype == object and a.size and all(isinstance(x, (int, real_np.integer)) and not isinstance(x, (bool, real_np.bool_)) for x in a.reshape(-1)):
+            return a.astype(real_np.int64)
+        return a
 
     def contiguous(self):
         return self
@@ -213,9 +215,9 @@ class Tensor(SArr):
             if isinstance(x, _DType) or x is bool or x is int or x is float:
                 dt = x
         if dt is bool_ or dt is bool:
-            return T(_collapse(real_np.frompyfunc(to_bool, 1, 1)(real_np.asarray(self))) if self.size else real_np.zeros(self.shape, dtype=bool))
+            return T(_collapse(real_np.frompyfunc(to_bool, 1, 1)(real_np.asarray(self))) if real_np.asarray(self).size else real_np.zeros(self.shape, dtype=bool))
         if dt is not None and (dt is int or dt is float or getattr(dt, 'kind', '') in 'if'):
-            return T(real_np.frompyfunc(lambda x: to_int(x) if _is_boolish(x) else x, 1, 1)(real_np.asarray(self)) if self.size else real_np.asarray(self).astype(object))
+            return T(real_np.frompyfunc(lambda x: to_int(x) if _is_boolish(x) else x, 1, 1)(real_np.asarray(self)) if real_np.asarray(self).size else real_np.asarray(self).astype(object))
         return self
 
     def float(self):
@@ -247,7 +249,7 @@ class Tensor(SArr):
         return sum_(self, *a, **k)
 
     def ge(self, v):
-        return T(real_np.frompyfunc(lambda x: compare('>=', to_int(x) if _is_boolish(x) else x, v), 1, 1)(real_np.asarray(self)) if self.size else real_np.zeros(self.shape, dtype=bool))
+        return T(real_np.frompyfunc(lambda x: compare('>=', to_int(x) if _is_boolish(x) else x, v), 1, 1)(real_np.asarray(self)) if real_np.asarray(self).size else real_np.zeros(self.shape, dtype=bool))
 
     def all(self, *a, **k):
         return T(AND(real_np.asarray(self).reshape(-1)))
@@ -372,7 +374,7 @@ def randint(low, high=None, size=None, device=None, dtype=None, **kw):
     return T(real_np.asarray(NP.random.randint(low, high, _shape((size,)))))
 
 
-def complex(re, im):
+def complex_(re, im):
     return T(real_np.frompyfunc(lambda a, b: SC(a, b).norm(), 2, 1)(_un(re), _un(im)))
 
 
@@ -654,7 +656,7 @@ class TorchShim:
     eye = staticmethod(eye)
     arange = staticmethod(arange)
     randint = staticmethod(randint)
-    complex = staticmethod(complex)
+    complex = staticmethod(complex_)
     is_tensor = staticmethod(is_tensor)
     sum = staticmethod(sum_)
     prod = staticmethod(prod)
